@@ -336,3 +336,161 @@ Proof.
     { apply amem_false. unfold amem. rewrite E. reflexivity. }
     repeat split; auto; try lia; try tauto. intros ->. tauto.
 Qed.
+
+(* ====================================================================== *)
+(* C. the Lru-level invariant                                              *)
+(* ====================================================================== *)
+
+(* between two TcCache calls: no reservation, within the limit, index and disk agree *)
+Definition core (s : st) : Prop := wf s /\ pending_size s = 0 /\ measure s <= cap s.
+Definition idle (s : st) : Prop := handles s = [] /\ pending s = [].
+
+Definition files_sub (s s' : st) : Prop := forall k, In k (keys (files s')) -> In k (keys (files s)).
+
+Lemma wf_tick s : wf s -> wf (tick s).
+Proof. unfold wf. simpl. auto. Qed.
+
+(* goals: wf, pending_size, measure, handles, pending, the rest *)
+Ltac split_ci := split; [split; [| split] | split; [split |]].
+
+(* ---- LruDiskCache::insert_file ---- *)
+Lemma insert_file_props s k n s' r t :
+  insert_by s k (Some n) n false = (s', r, t) -> core s -> idle s ->
+  core s' /\ idle s' /\ next_h s' = next_h s /\ cap s' = cap s /\
+  (forall k', In k' (keys (files s')) -> (k' = k /\ r = ROk) \/ In k' (keys (files s))).
+Proof.
+  unfold insert_by. cbv beta iota zeta. intros H ((Hnd & Hsub & Hs) & Hps & Hm) (Hh & Hp).
+  destruct (negb (n <=? cap s)) eqn:G.
+  - inversion H; subst. repeat split; auto.
+  - destruct (lru_remove_props s k) as (R1 & R2 & R3 & R4 & R5 & R6).
+    set (s1 := lru_remove s k) in *.
+    set (s2 := set_files s1 (ains k (n, clock s1 + 1) (files s1))) in *.
+    destruct (make_space s2 n) as [ok s3] eqn:M.
+    assert (Hk1 : ~ In k (keys (index s1))) by (intros Hin; apply R1 in Hin; tauto).
+    assert (W2 : wf s2).
+    { unfold wf, s2. simpl. repeat split.
+      - apply R2. exact Hnd.
+      - intros k0 Hin. apply keys_ains. right. rewrite R4. apply Hsub. apply R1 in Hin. tauto.
+      - apply ksorted_ains. rewrite R4. exact Hs. }
+    destruct (make_space_props _ _ _ _ M W2) as (E3 & C3 & W3 & M3 & O3 & I3 & F3 & S3).
+    destruct R6 as (Rc & Rp & Rps & Rh & Rn). destruct E3 as (Ec & Ep & Eps & Eh & En).
+    simpl in Ec, Ep, Eps, Eh, En, M3, O3.
+    assert (Hk3 : ~ In k (keys (index s3))) by (intros Hin; apply I3 in Hin; simpl in Hin; tauto).
+    assert (Hf2 : forall k', In k' (keys (files s2)) -> k' = k \/ In k' (keys (files s))).
+    { unfold s2. simpl. intros k' Hin. apply keys_ains in Hin. rewrite R4 in Hin. exact Hin. }
+    destruct ok.
+    + inversion H; subst; clear H.
+      assert (Hm3 : measure s3 + n <= cap s3) by (specialize (O3 eq_refl); lia).
+      assert (Hkf : In k (keys (files s3))).
+      { apply S3; [unfold s2; simpl; apply keys_ains; auto | simpl; exact Hk1]. }
+      destruct (lru_insert_props s3 k n Hm3) as (Li & Lm & Lf & Lc & (Lcap & Lp & Lps & Lh & Ln)).
+      split_ci; simpl; try congruence; try lia.
+      * apply wf_tick, wf_lru_insert; auto.
+      * split; [congruence|]. split; [congruence|].
+        intros k' Hin. rewrite Lf in Hin. apply F3 in Hin. apply Hf2 in Hin. tauto.
+    + inversion H; subst; clear H. destruct W3 as (W3a & W3b & W3c).
+      split_ci; simpl; try congruence; try lia.
+      * unfold wf. simpl. repeat split; auto.
+        -- intros k0 Hin. apply keys_aremove. split; [auto | intros ->; contradiction].
+        -- apply ksorted_aremove. exact W3c.
+      * split; [congruence|]. split; [congruence|].
+        intros k' Hin. apply keys_aremove in Hin. destruct Hin as [Hin Hne].
+        apply F3 in Hin. apply Hf2 in Hin. tauto.
+Qed.
+
+(* ---- the second half of LruDiskCache::commit, from an idle state ---- *)
+Definition commit_core (s : st) (k : key) (n : N) : st * res * option key :=
+  let '(ok, s2) := make_space s n in
+  if ok then (lru_insert (tick (set_files s2 (ains k (n, clock s2 + 1) (files s2)))) k n, ROk, Some k)
+  else (s2, RTooLarge, None).
+
+Lemma commit_core_props s k n s' r t :
+  commit_core s k n = (s', r, t) -> core s -> idle s ->
+  core s' /\ idle s' /\ next_h s' = next_h s /\ cap s' = cap s /\
+  (forall k', In k' (keys (files s')) -> (k' = k /\ r = ROk) \/ In k' (keys (files s))) /\
+  (r = ROk \/ (r = RTooLarge /\ t = None)).
+Proof.
+  unfold commit_core. intros H (W & Hps & Hm) (Hh & Hp).
+  destruct (make_space s n) as [ok s2] eqn:M.
+  destruct (make_space_props _ _ _ _ M W) as (E2 & C2 & W2 & M2 & O2 & I2 & F2 & S2).
+  destruct E2 as (Ec & Ep & Eps & Eh & En). destruct W2 as (W2a & W2b & W2c).
+  destruct ok.
+  - inversion H; subst; clear H.
+    remember (tick (set_files s2 (ains k (n, clock s2 + 1) (files s2)))) as s3 eqn:Es3.
+    assert (T3 : cap s3 = cap s2 /\ pending s3 = pending s2 /\ pending_size s3 = pending_size s2 /\
+                 handles s3 = handles s2 /\ next_h s3 = next_h s2 /\ measure s3 = measure s2 /\
+                 index s3 = index s2 /\ files s3 = ains k (n, clock s2 + 1) (files s2))
+      by (subst s3; simpl; repeat split).
+    destruct T3 as (Tc & Tp & Tps & Th & Tn & Tm & Ti & Tf).
+    assert (Hm3 : measure s3 + n <= cap s3) by (specialize (O2 eq_refl); lia).
+    assert (W3 : wf s3).
+    { unfold wf. rewrite Ti, Tf. repeat split; auto.
+      - intros k0 Hin. apply keys_ains. right. auto.
+      - apply ksorted_ains. exact W2c. }
+    assert (Hkf : In k (keys (files s3))) by (rewrite Tf; apply keys_ains; auto).
+    destruct (lru_insert_props s3 k n Hm3) as (Li & Lm & Lf & Lc & (Lcap & Lp & Lps & Lh & Ln)).
+    split_ci; try congruence; try lia.
+    + apply wf_lru_insert; auto.
+    + split; [congruence|]. split; [congruence|]. split; [|auto].
+      intros k' Hin. rewrite Lf, Tf in Hin. apply keys_ains in Hin.
+      destruct Hin as [->|Hin]; auto.
+  - inversion H; subst; clear H. split_ci; try congruence; try lia.
+    + unfold wf; auto.
+    + repeat split; auto.
+Qed.
+
+(* ---- get ---- *)
+Lemma get_props s k s' r t :
+  get s k = (s', r, t) -> core s -> idle s ->
+  core s' /\ idle s' /\ next_h s' = next_h s /\ cap s' = cap s /\ files_sub s s' /\
+  (r = ROk -> In k (keys (index s)) /\ In k (keys (files s))).
+Proof.
+  unfold get, lru_get. intros H ((Hnd & Hsub & Hs) & Hps & Hm) (Hh & Hp).
+  destruct (alookup k (index s)) as [sz|] eqn:E.
+  - assert (Hki : In k (keys (index s))) by (apply amem_In; eapply alookup_amem; eauto).
+    assert (W1 : wf (set_lru s (aremove k (index s) ++ [(k, sz)]) (measure s))).
+    { unfold wf. simpl. rewrite keys_app. simpl. repeat split; auto.
+      - apply NoDup_snoc; [apply NoDup_keys_aremove; auto|]. intros Hin. apply keys_aremove in Hin. tauto.
+      - intros k0 Hin. apply in_app_iff in Hin. destruct Hin as [Hin|[<-|[]]]; auto.
+        apply keys_aremove in Hin. apply Hsub. tauto. }
+    cbv beta iota zeta in H. simpl files in H.
+    destruct (alookup k (files s)) as [[fsz fmt]|] eqn:F.
+    + inversion H; subst; clear H. destruct W1 as (W1a & W1b & W1c). simpl in W1a, W1b, W1c.
+      split_ci; simpl; auto.
+      * unfold wf. simpl. repeat split; auto.
+        -- intros k0 Hin. apply keys_ains. right. auto.
+        -- apply ksorted_ains. exact Hs.
+      * repeat split; auto.
+        intros k0 Hin. simpl in Hin. apply keys_ains in Hin. destruct Hin as [->|Hin]; auto.
+    + inversion H; subst; clear H. split_ci; simpl; auto.
+      repeat split; auto; try discriminate. intros k0 Hin. exact Hin.
+  - inversion H; subst; clear H. split_ci; auto.
+    + unfold wf; auto.
+    + repeat split; auto; try discriminate. intros k0 Hin. exact Hin.
+Qed.
+
+(* ---- remove ---- *)
+Lemma remove_props s k s' r :
+  remove s k = (s', r) -> core s -> idle s ->
+  core s' /\ idle s' /\ next_h s' = next_h s /\ cap s' = cap s /\ files_sub s s'.
+Proof.
+  unfold remove. intros H ((Hnd & Hsub & Hs) & Hps & Hm) (Hh & Hp).
+  destruct (alookup k (index s)) as [sz|] eqn:E.
+  - destruct (lru_remove_props s k) as (R1 & R2 & R3 & R4 & R5 & (Rc & Rp & Rps & Rh & Rn)).
+    set (s1 := lru_remove s k) in *.
+    assert (W1 : wf s1).
+    { unfold wf. rewrite R4. repeat split; auto. intros k0 Hin. apply R1 in Hin. apply Hsub. tauto. }
+    destruct (alookup k (files s1)) as [x|] eqn:F.
+    + inversion H; subst; clear H. destruct W1 as (W1a & W1b & W1c).
+      split_ci; simpl; try congruence; try lia.
+      * unfold wf. simpl. repeat split; auto.
+        -- intros k0 Hin. apply keys_aremove. split; auto. intros ->. apply R1 in Hin. tauto.
+        -- apply ksorted_aremove. exact W1c.
+      * repeat split; try congruence.
+        intros k0 Hin. simpl in Hin. apply keys_aremove in Hin. rewrite R4 in Hin. tauto.
+    + inversion H; subst; clear H. split_ci; try congruence; try lia.
+      repeat split; try congruence.
+  - inversion H; subst; clear H. split_ci; auto.
+    + unfold wf; auto.
+    + repeat split; auto. intros k0 Hin. exact Hin.
+Qed.
